@@ -319,17 +319,24 @@ static void child_main(const std::string& line)
 
     Logging::instance().set_logger_impl(new capture_logger);
     Logging::instance().enable_debug();
-    alarm(20);
+    alarm(8);
+    // C14_HALF = 0 / 1 compiles only the instantiations without / with a real features callback
+    // (the check builds the two halves in parallel); unset: all eight
     switch (mask & 7)
     {
+#if !defined(C14_HALF) || C14_HALF == 0
     case 0: run_embed<no_kernel, no_distance, no_features>(idx, ps); break;
     case 1: run_embed<counting_kernel, no_distance, no_features>(idx, ps); break;
     case 2: run_embed<no_kernel, counting_distance, no_features>(idx, ps); break;
     case 3: run_embed<counting_kernel, counting_distance, no_features>(idx, ps); break;
+#endif
+#if !defined(C14_HALF) || C14_HALF == 1
     case 4: run_embed<no_kernel, no_distance, counting_features>(idx, ps); break;
     case 5: run_embed<counting_kernel, no_distance, counting_features>(idx, ps); break;
     case 6: run_embed<no_kernel, counting_distance, counting_features>(idx, ps); break;
     case 7: run_embed<counting_kernel, counting_distance, counting_features>(idx, ps); break;
+#endif
+    default: emit_and_exit("other:not-compiled-in-this-half");
     }
     emit_and_exit("other:fell-through");
 }
